@@ -95,3 +95,9 @@ package keeper
 //@   before[C12.cp.token]  AppendPriceTR requires arg_tokenID == res_NewCreatePrice_0.TokenID
 //@   before[C12.cp.grow]   GrowRoundID requires arg_tokenID == res_NewCreatePrice_0.TokenID
 //@   before[C12.cp.marked] AppendUpdatedFeederIDs requires arg0 == msg.FeederID
+
+// the oracle side of a token registration (new token and its feeder): assumed to be all-or-nothing
+//@ func (Keeper).RegisterNewTokenAndSetTokenFeeder
+//@   flag assumed
+//@   modifies store(ctx, "oracle")
+//@   ensures err != nil ==> state(ctx) == old(state(ctx))
